@@ -72,7 +72,11 @@ def gen_ops(rng, cfg, nops, kmax=5, pmax=3):
                 call["limit_sigma"] = rng.choice([True, False])
             ops.append(dict(op="rate", teams=teams, sel=sel, vals=vals, call=call))
         else:
-            ops.append(dict(op=rng.choice(["predict_win", "predict_draw", "predict_rank"]), teams=teams))
+            if ops and ops[-1]["op"] != "rate" and rng.random() < 0.5:
+                # the application asks several predictions about ONE game, passing the same list object each time
+                ops.append(dict(op=rng.choice(["predict_win", "predict_draw", "predict_rank"]), teams=ops[-1]["teams"], same_list=True))
+            else:
+                ops.append(dict(op=rng.choice(["predict_win", "predict_draw", "predict_rank"]), teams=teams))
     return ops
 
 
@@ -154,7 +158,12 @@ def _numbers(op, res):
 def run_op(model, op, idmode=None, tag="", watch_globals=False, consts=None):
     """consts: a per-sequence pool of outcome lists that the caller REUSES between calls (an application's
     `AWAY_WIN = [2, 1]` constant): the same list object is passed whenever the same outcome occurs again"""
-    teams = _mk_teams(model, op, idmode, tag)
+    if op.get("same_list") and consts is not None and consts.get("__prev_teams__") is not None:
+        teams = consts["__prev_teams__"]  # the very list object (and rating objects) of the previous predict call
+    else:
+        teams = _mk_teams(model, op, idmode, tag)
+    if consts is not None:
+        consts["__prev_teams__"] = teams if op["op"] != "rate" else None
     if op["op"] == "rate":
         kw = _kw(op)
         if consts is not None and op.get("sel"):
